@@ -31,6 +31,16 @@ CLAIMS = {
         design_ref="§5 C05"),
 }
 
+CLAIMS['C16'] = dict(
+    text=("Kernel-checked theorems C16_kind / C16_kind_deserialize: for every type of the universe, every byte "
+          "string and both key-order modes a failing decode from a slice has kind InvalidData (by induction over "
+          "the universe; the same induction shows the decoder never panics); C16_zst* (zero-sized collections give "
+          "the public message on any input), C16_leftover_partial, C16_truncated_block. Differential run over "
+          "truncations, single-byte corruptions, 0xFFFFFFFF windows, entry swaps and random strings of every "
+          "catalogue type (incl. bson/ascii/bytes/indexmap impls) comparing (kind, message class)."),
+    technique="Lean 4 proof (error-discipline predicate by induction over the universe) + differential correspondence check",
+    design_ref="§5 C16")
+
 NOT_YET = {
 }
 
